@@ -161,6 +161,23 @@ CHECKS["C01"] = dict(
           "outside the property's domain (bounded nesting / sizes in the generators)."),
     technique="Lean 4 no-hazard theorems (operators) + exhaustive construct x operand-class sanitizer run + token-level text mutation")
 
+CHECKS["C19"] = dict(
+    category="proof",
+    text=("Lean 4 proof about a transcription of apps/main.cpp, main_options.cpp, cli_parser.cpp (statement loop), read_file.cpp: "
+          "exit_zero_iff_success (every library outcome x every output selection, and at the level of main for every argv), "
+          "stdout_eq_library_output (selected output = library output ++ rendering of the returned value; --out leaves stdout empty), "
+          "arg_table_faithful (argv = options ++ file :: args for every argv; $ARG = args in order), stderr_class, expr_mode_contract, "
+          "interactive_eq_batch_partial (declarations first, no unhandled error, no top-level return => same final state as batch), "
+          "with the negations at the recorded witnesses (returned table/bytes not printed; interactive mode continues after return; "
+          "function redefinition). The parser is a parameter of the model. Tie to the code: 1000 (quick) process runs of the REAL "
+          "sanitizer-built executable compared with the in-process library probe and the model: exit status, stdout bytes, stderr class "
+          "and position, --out file, interactive transcript; argument vectors with blanks/quotes/UTF-8/leading '-'/empty/3000-byte words."),
+    design_ref="DESIGN.md §6 C19, notes/NOTES-C19.md",
+    note=("Trusted: Lean kernel; the subprocess plumbing of vlib/props/c19.py; parser verdicts are inputs of the model (from the generator's "
+          "AST and the probe). Normalised, not modelled: readline echo, Elapsed figure, version line, message texts, deferred output of a "
+          "failing print in -i. Not covered: CLI commands other than exit, --debug/--color output, a tty."),
+    technique="Lean 4 proof of the decision logic + process-level three-way differential test")
+
 NOT_YET = {}
 
 ALL = ["C%02d" % i for i in range(1, 20)]
